@@ -628,6 +628,7 @@ Corollary C02_parse_string_terminates_checked : forall com dir count text,
   forallb literal_okb (lxd_lit (lex com dir count text)) = true ->
   parse_string com dir count text <> Raise E_Fuel.
 Proof. intros com dir count text H. apply C02_parse_string_terminates. apply literals_okb_ok. exact H. Qed.
+Print Assumptions C02_parse_string_terminates_checked.
 
 Example C02_parse_string_terminates_nonvacuous :
   let text := of_string "a 'x STRINGLITERAL000002'; b 'y'; c ( 1 'two words' ) ; } ;" in
